@@ -604,6 +604,7 @@ func (t *Repository) Get(name string) (*template.Template, error) {
 		return templ, fmt.Errorf("template doesn't exist %s", name)
 	}
 
+	verifYield("Repository.Get.beforeAddDependencies")
 	return t.addDependencies(templ)
 }
 
